@@ -53,13 +53,20 @@ func (a *AArg) Go(copyWrap bool) any {
 	for i, x := range a.Args {
 		g := x.Go(copyWrap)
 		if a.Fn == "cond" && x.Kind == "c" && x.Fn == "list" && len(x.Args) == 2 {
-			g = []any{x.Args[0].Go(copyWrap), x.Args[1].Go(copyWrap)} // a clause is a bare two-element list
+			val := x.Args[1].Go(copyWrap)
+			if copyWrap && x.Args[1].Kind == "l" && isContainer(x.Args[1].Lit) {
+				val = []any{"vcopy", val} // a literal that cond returns (and that may become @)
+			}
+			g = []any{x.Args[0].Go(copyWrap), val} // a clause is a bare two-element list
 		}
 		if copyWrap && ((a.Fn == "set" || a.Fn == "setall" || a.Fn == "append") && i == 1) {
 			g = []any{"vcopy", g}
 		}
 		if copyWrap && a.Fn == "list" {
 			g = []any{"vcopy", g}
+		}
+		if copyWrap && a.Fn == "asm" && x.Kind == "l" && isContainer(x.Lit) {
+			g = []any{"vcopy", g} // a literal that becomes @ for the following steps
 		}
 		out = append(out, g)
 	}
@@ -425,9 +432,21 @@ type asmCase struct {
 func (c *asmCase) planGo(copyWrap bool) []any {
 	out := make([]any, 0, len(c.stmts))
 	for _, s := range c.stmts {
-		out = append(out, s.Go(copyWrap))
+		g := s.Go(copyWrap)
+		if copyWrap && s.Kind == "l" && isContainer(s.Lit) {
+			g = []any{"vcopy", g} // a literal that becomes @ for the following statements
+		}
+		out = append(out, g)
 	}
 	return out
+}
+
+func isContainer(v any) bool {
+	switch v.(type) {
+	case []any, map[string]any:
+		return true
+	}
+	return false
 }
 
 var modelledNames = map[string]bool{"asm": true, "set": true, "setall": true, "del": true, "delall": true, "get": true, "getall": true,
@@ -536,6 +555,14 @@ func cyclic(v any, on map[uintptr]bool, depth int) bool {
 				return true
 			}
 		}
+	case *asm.Plan:
+		return cyclic(&t.Fn, on, depth+1)
+	case *asm.Fn:
+		for _, e := range t.Args {
+			if cyclic(e, on, depth+1) {
+				return true
+			}
+		}
 	}
 	return false
 }
@@ -578,6 +605,24 @@ func suiteAsm(tier string, seed uint64, model string) *Report {
 				&asmCase{[]*AArg{call(fixed, "set", path(R, C("asm"), C("r")), call(fixed, fn, lit(pr[0]), path(R, C("src"))))}, map[string]any{"src": pr[1]}, nil},
 				&asmCase{[]*AArg{call(fixed, "set", path(R, C("asm"), C("r")), call(fixed, fn, path(R, C("src")), lit(pr[0])))}, map[string]any{"src": pr[1]}, nil},
 				&asmCase{[]*AArg{call(fixed, "set", path(R, C("asm"), C("r")), call(fixed, fn, lit(pr[0]), lit(pr[1])))}, map[string]any{"src": nil}, nil})
+		}
+	}
+	// order tests on integers beyond 2^53 that differ by less than the float64 spacing; zero divisors
+	bigs := []int64{9007199254740992, 9007199254740993, 9007199254740994, -9007199254740993, 9223372036854775806, 9223372036854775807, 1700000000000000001, 1700000000000000002}
+	for _, fn := range []string{"lt", "lte", "gt", "gte", "eq", "neq"} {
+		for _, a := range bigs {
+			for _, b := range bigs {
+				cases = append(cases,
+					&asmCase{[]*AArg{call(fixed, "set", path(R, C("asm"), C("r")), call(fixed, fn, lit(a), lit(b)))}, map[string]any{"src": nil}, nil},
+					&asmCase{[]*AArg{call(fixed, "set", path(R, C("asm"), C("r")), call(fixed, fn, path(R, C("src")), lit(b)))}, map[string]any{"src": a}, nil})
+			}
+		}
+	}
+	for _, fn := range []string{"quotient", "mod"} {
+		for _, a := range []any{int64(7), int64(0), 2.5} {
+			for _, b := range []any{int64(0), 0.0, int64(2)} {
+				cases = append(cases, &asmCase{[]*AArg{call(fixed, "set", path(R, C("asm"), C("r")), call(fixed, fn, lit(a), lit(b)))}, map[string]any{"src": nil}, nil})
+			}
 		}
 	}
 	for i := 0; i < n; i++ {
@@ -722,6 +767,36 @@ func suiteAsm(tier string, seed uint64, model string) *Report {
 					cl = "stored-without-copy"
 				}
 				rep.Add(Disagreement{Case: desc, Where: "Plan.Execute", Kind: "impl-law:second-run-differs", Impl: used2, Model: fresh2, Class: cl, Detail: "the Plan had been executed on " + Show(c.root) + " before; second root " + Show(c.root2)})
+			}
+		}
+		// executing a plan does not change what it prints as (compared as parsed SEN: members of
+		// literal objects print in map order)
+		stableString := func(fp *asm.Plan) (ok bool, before, after string) {
+			canon := func(t string) string {
+				if v, err := sen.Parse([]byte(t)); err == nil {
+					return Show(v)
+				}
+				return t
+			}
+			before = safe(func() string { return canon(fp.String()) })
+			runPlan(fp, c.root)
+			if cyclic(fp, map[uintptr]bool{}, 0) {
+				// the recorded stored-without-copy finding can make a literal of the plan contain itself
+				rep.Count("skipped:plan-cyclic-after-execute")
+				return true, "", ""
+			}
+			after = safe(func() string { return canon(fp.String()) })
+			return after == before, before, after
+		}
+		if fp := asm.NewPlan(c.planGo(false)); fp != nil {
+			if ok, before, after := stableString(fp); !ok {
+				cl := ""
+				if fp2 := asm.NewPlan(c.planGo(true)); fp2 != nil {
+					if ok2, _, _ := stableString(fp2); ok2 {
+						cl = "stored-without-copy" // with every stored value copied the printed plan is stable
+					}
+				}
+				rep.Add(Disagreement{Case: desc, Where: "Plan.String", Kind: "impl-law:string-changes-after-execute", Impl: after, Model: before, Class: cl})
 			}
 		}
 		// String() and Simplify() rebuild a plan with the same behaviour
